@@ -167,18 +167,27 @@ impl SrtpSession {
 
     pub fn unprotect_rtp(&mut self, packet: SrtpPacket) -> SrtpResult<RtpPacket> {
         let ssrc = packet.header.ssrc;
+        // Receive contexts are created, refreshed and garbage-collected only by
+        // packets that authenticate. A forged packet (e.g. one with a made-up
+        // SSRC) must not be able to push the table past the high-water mark and
+        // thereby evict the rollover state of a genuine, momentarily silent
+        // stream - after which that stream could never be decrypted again.
+        if let Some(ctx) = self.rx_contexts.get_mut(&ssrc) {
+            let out = ctx.unprotect(packet)?;
+            ctx.last_used = std::time::Instant::now();
+            self.evict_stale_rx(ssrc);
+            return Ok(out);
+        }
+        let mut ctx = SrtpContext::new(
+            ssrc,
+            self.profile,
+            self.rx_keying.clone(),
+            SrtpDirection::Receiver,
+        )?;
+        let out = ctx.unprotect(packet)?;
         self.evict_stale_rx(ssrc);
-        let ctx = match self.rx_contexts.entry(ssrc) {
-            Entry::Occupied(e) => e.into_mut(),
-            Entry::Vacant(e) => e.insert(SrtpContext::new(
-                ssrc,
-                self.profile,
-                self.rx_keying.clone(),
-                SrtpDirection::Receiver,
-            )?),
-        };
-        ctx.last_used = std::time::Instant::now();
-        ctx.unprotect(packet)
+        self.rx_contexts.insert(ssrc, ctx);
+        Ok(out)
     }
 
     pub fn protect_rtcp(&mut self, packet: &mut Vec<u8>) -> SrtpResult<()> {
@@ -208,18 +217,24 @@ impl SrtpSession {
         }
         let ssrc = u32::from_be_bytes([packet[4], packet[5], packet[6], packet[7]]);
 
+        // As for RTP: only an authenticated packet may create, refresh or
+        // garbage-collect a receive context.
+        if let Some(ctx) = self.rx_contexts.get_mut(&ssrc) {
+            ctx.unprotect_rtcp(packet)?;
+            ctx.last_used = std::time::Instant::now();
+            self.evict_stale_rx(ssrc);
+            return Ok(());
+        }
+        let mut ctx = SrtpContext::new(
+            ssrc,
+            self.profile,
+            self.rx_keying.clone(),
+            SrtpDirection::Receiver,
+        )?;
+        ctx.unprotect_rtcp(packet)?;
         self.evict_stale_rx(ssrc);
-        let ctx = match self.rx_contexts.entry(ssrc) {
-            Entry::Occupied(e) => e.into_mut(),
-            Entry::Vacant(e) => e.insert(SrtpContext::new(
-                ssrc,
-                self.profile,
-                self.rx_keying.clone(),
-                SrtpDirection::Receiver,
-            )?),
-        };
-        ctx.last_used = std::time::Instant::now();
-        ctx.unprotect_rtcp(packet)
+        self.rx_contexts.insert(ssrc, ctx);
+        Ok(())
     }
 
     /// Evict stale transmit contexts once the map crosses the high-water mark.
